@@ -197,6 +197,36 @@ def run_case(case):
         return Outcome(fail('nondeterministic', 'same pieces chunked twice give different chunks',
                             first=[len(c) for c in c1][:40], second=[len(c) for c in c1b][:40]), classes)
 
+    # "never by earlier calls": one adapter object serves many streams (every snapshot of a Repository), incl. after a
+    # run that was abandoned half-way, after a source that raised, and with two streams in progress at once
+    adapter = A.gclmulchunker(min_length=mn, max_length=mx)
+    g = adapter(iter([os.urandom(3 * mx + 5), os.urandom(mx + 1)]), params=key)
+    next(g, None)
+    g.close()
+
+    def boom():
+        yield os.urandom(2 * mx + 3)
+        raise OSError('source failed')
+    try:
+        list(adapter(boom(), params=key))
+    except OSError:
+        pass
+    g1 = adapter(iter([bytes(p) for p in ps1]), params=key)
+    g2 = adapter(iter([bytes(p) for p in ps1]), params=key)
+    o1, o2 = [], []
+    while True:
+        a, b = next(g1, None), next(g2, None)
+        if a is None and b is None:
+            break
+        if a is not None:
+            o1.append(a)
+        if b is not None:
+            o2.append(b)
+    if o1 != c1 or o2 != c1:
+        return Outcome(fail('earlier-calls', 'chunks depend on earlier / concurrent use of the same adapter object '
+                            f'({sum(map(len, o1))} and {sum(map(len, o2))} bytes out for {n} in)',
+                            first=[len(c) for c in o1][:20], expected=[len(c) for c in c1][:20]), classes)
+
     c2 = _chunk(mn, mx, key, ps2)
     f = validate(c2, 'segmentation 2')
     if f:
